@@ -2,6 +2,7 @@ import I18n.Model.Plural
 import I18n.Lemmas.EvalSpec
 import I18n.Lemmas.ParseSound
 import I18n.Lemmas.ParseString
+import I18n.Lemmas.LRSound
 import I18n.Generated.PluralGrammar
 import I18n.Spec.PluralY
 /-!
@@ -140,6 +141,60 @@ theorem accept_string_iff (s : List Char) :
 /-- and every other string gets the syntax error (no third outcome). -/
 theorem reject_string_iff (s : List Char) :
     PluralParse.parse s = .syntaxError ↔ ¬ ∃ ts, Spec.Tokens s ts ∧ Spec.Amb ts := PluralParse.parse_syntaxError_iff s
+
+/-! ## The parser the tool runs: rply's LR driver over the LALR tables it built
+
+`Generated.PluralLR` holds `lr_action`, `lr_goto`, `default_reductions` and the numbered productions (with the
+names of their action functions) dumped from the live `LRParser` object on every run; `PluralLR.lrParse` is
+`LRParser.parse` + `_reduce_production` + the action functions of lib/intexpr.py over those tables. -/
+
+/-- the action-table columns are the lexer's token names in declaration order, then `$end`; the goto columns are
+    `exp`, `start`; every dumped action function is one the model knows (`tables` resolves) -/
+theorem lr_tables_pin :
+    Generated.PluralLR.terminals = PluralLR.colNames ∧ Generated.PluralLR.nonterminals = ["exp", "start"] ∧
+    PluralLR.tables.isSome = true := ⟨PluralLR.columns_pin.1, PluralLR.columns_pin.2, by rw [PluralLR.tables_eq]; rfl⟩
+
+/-- **The table-driven parser computes the C grammar.**  Over the tables rply built from the current source, the
+    LR driver returns the tree `e` for a token list iff the recursive-descent model does, i.e. (`parse_iff_derives`)
+    iff the stratified C grammar derives `e`: every shift/reduce conflict of the ambiguous grammar was resolved the
+    way C's precedence and associativity demand. -/
+theorem lr_iff_parse (ts : List PluralParse.Tok) (e : Expr) :
+    PluralLR.lrParse ts = .ok e ↔ PluralParse.parseToks ts = some e := PluralLR.lrParse_ok_iff ts e
+
+theorem lr_iff_derives (ts : List PluralParse.Tok) (e : Expr) :
+    PluralLR.lrParse ts = .ok e ↔ Spec.D 0 ts e := by rw [lr_iff_parse, parse_iff_derives]
+
+/-- its accepted language is L(plural.y) -/
+theorem lr_accept_iff_plural_y (ts : List PluralParse.Tok) : (∃ e, PluralLR.lrParse ts = .ok e) ↔ Spec.Amb ts := by
+  rw [← accept_iff_plural_y]
+  exact ⟨fun ⟨e, h⟩ => ⟨e, (lr_iff_parse ts e).1 h⟩, fun ⟨e, h⟩ => ⟨e, (lr_iff_parse ts e).2 h⟩⟩
+
+/-- end to end with the LR driver in the place of the recursive-descent model -/
+theorem lr_parse_string_iff (s : List Char) (e : Expr) :
+    PluralLR.parse s = .inl (.ok e) ↔ ∃ ts, Spec.Tokens s ts ∧ Spec.D 0 ts e := by
+  rw [← parse_string_iff]
+  unfold PluralLR.parse PluralParse.parse
+  cases hl : PluralParse.lex s with
+  | syntaxError => simp
+  | valueError => simp
+  | ok ts =>
+    simp only
+    cases hr : PluralLR.lrParse ts with
+    | ok e' =>
+      have := (lr_iff_parse ts e').1 hr
+      simp [this]
+    | syntaxError =>
+      cases hp : PluralParse.parseToks ts with
+      | none => simp
+      | some e' => rw [(lr_iff_parse ts e').2 hp] at hr; cases hr
+    | crash =>
+      cases hp : PluralParse.parseToks ts with
+      | none => simp
+      | some e' => rw [(lr_iff_parse ts e').2 hp] at hr; cases hr
+
+example : PluralLR.lrParse [.var, .bool .or, .int 0, .bool .and, .var] =
+    .ok (.boolop .or .name (.boolop .and (.num 0) .name)) := by decide
+example : PluralLR.lrParse [.var, .var] = .syntaxError := by decide
 
 /-! Non-vacuity: registry expressions and their trees (Polish, Russian, Slovenian; Arabic from the gettext manual). -/
 example : PluralParse.parse "n==1 ? 0 : n%10>=2 && n%10<=4 && (n%100<10 || n%100>=20) ? 1 : 2".toList = .ok
